@@ -1,35 +1,48 @@
 (* Property C15 -- graph constructions on the command line deliver the structure they name.
    ONLY statements; every proof is `exact <lemma>` (lemmas in GraphGenFacts.v).
    Every sampler is a function of an oracle stream of recorded random draws (GraphGen.v); the statements
-   quantify over EVERY stream: whenever the construction returns a graph, the graph has the promised structure. *)
+   quantify over EVERY stream: whenever the construction returns a graph, the graph has the promised structure.
+   The model follows the CURRENT code of /repo; the code as found (before the repairs 434eacc, 9fe5425, e36db3c,
+   458cbc2, 50573cf) is kept as *_as_found and what failed there stays visible in the *_as_found_refuted theorems. *)
 From Coq Require Import ZArith List Bool.
-From Cnfgen Require Import Comb GText GraphIO GraphIOFacts GraphGen GraphGenFacts GraphGenRegular.
+From Cnfgen Require Import Comb GText GraphIO GraphIOFacts GraphGen GraphGenFacts GraphGenRegular GraphGenRepaired.
 Import ListNotations.
 Open Scope Z_scope.
 
 (* ---- (1) glrm: exactly m edges, for every m the guard lets through, both sampling strategies ---- *)
-(* the documented behaviour (dense branch samples from the list of all pairs): every 0 <= m <= L*R *)
-Theorem C15_m_edges_spec : forall L R m s G s',
-  gg_m_edges_spec L R m s = GGOk (G, s') ->
+(* the dense branch samples from the list of all pairs: every 0 <= m <= L*R *)
+Theorem C15_m_edges : forall L R m s G s',
+  gg_m_edges L R m s = GGOk (G, s') ->
   gg_nedges G = m /\ io_kind G = GioBipartite /\ io_n G = L /\ io_r G = R /\ 0 <= m <= L * R.
 Proof. exact m_edges_spec_exact. Qed.
-Print Assumptions C15_m_edges_spec.
-(* the code as it is: only the sparse branch delivers *)
-Theorem C15_m_edges_partial : forall L R m s G s',
-  gg_m_edges_as_is L R m s = GGOk (G, s') -> m <= L * R / 3 ->
+Print Assumptions C15_m_edges.
+(* every request, every stream: a graph with exactly m edges, a refusal with ValueError, or a stream outside the
+   contract of `random`; no other exception (no TypeError) *)
+Theorem C15_m_edges_total : forall L R m s,
+  match gg_m_edges L R m s with
+  | GGOk (G, _) => gg_nedges G = m /\ io_kind G = GioBipartite /\ io_n G = L /\ io_r G = R /\ 0 <= m <= L * R
+  | GGRaise e => e = EValueError
+  | GGBadOracle => True
+  | _ => False
+  end.
+Proof. exact m_edges_full. Qed.
+Print Assumptions C15_m_edges_total.
+(* the code as found (before 434eacc): only the sparse branch delivers *)
+Theorem C15_m_edges_as_found_partial : forall L R m s G s',
+  gg_m_edges_as_found L R m s = GGOk (G, s') -> m <= L * R / 3 ->
   gg_nedges G = m /\ io_kind G = GioBipartite /\ io_n G = L /\ io_r G = R /\ 0 <= m <= L * R.
 Proof. exact m_edges_sparse_exact. Qed.
-Print Assumptions C15_m_edges_partial.
-(* ... and the dense branch raises TypeError on a request the guard accepts (glrm 3 3 8): defect D10 *)
-Theorem C15_m_edges_refuted : exists L R m s, 0 <= m <= L * R /\ 1 <= L /\ 1 <= R /\
-  gg_m_edges_as_is L R m s = GGRaise ETypeError.
+Print Assumptions C15_m_edges_as_found_partial.
+(* ... and the dense branch raised TypeError on a request the guard accepts (glrm 3 3 8): defect D10 *)
+Theorem C15_m_edges_as_found_refuted : exists L R m s, 0 <= m <= L * R /\ 1 <= L /\ 1 <= R /\
+  gg_m_edges_as_found L R m s = GGRaise ETypeError.
 Proof. exact m_edges_as_is_refuted. Qed.
-Print Assumptions C15_m_edges_refuted.
+Print Assumptions C15_m_edges_as_found_refuted.
 Example C15_m_edges_nonvacuous :
-  gg_m_edges_spec 3 3 8 [0; 1; 2; 3; 4; 5; 6; 7] =
+  gg_m_edges 3 3 8 [0; 1; 2; 3; 4; 5; 6; 7] =
     GGOk (mkIOG GioBipartite [] 3 3 [(1,1); (1,2); (1,3); (2,1); (2,2); (2,3); (3,1); (3,2)], []) /\
-  gg_m_edges_as_is 3 3 3 [1; 1; 1; 1; 2; 2; 3; 1] = GGOk (mkIOG GioBipartite [] 3 3 [(1,1); (2,2); (3,1)], []) /\
-  gg_m_edges_as_is 3 3 3 [1; 1; 4; 1] = GGBadOracle.
+  gg_m_edges_as_found 3 3 3 [1; 1; 1; 1; 2; 2; 3; 1] = GGOk (mkIOG GioBipartite [] 3 3 [(1,1); (2,2); (3,1)], []) /\
+  gg_m_edges_as_found 3 3 3 [1; 1; 4; 1] = GGBadOracle.
 Proof. vm_compute. repeat split. Qed.
 
 (* ---- (2) glrd: every left vertex has degree min(r, d) ---- *)
@@ -43,36 +56,36 @@ Example C15_left_regular_nonvacuous :
 Proof. vm_compute. reflexivity. Qed.
 
 (* ---- (3) regular: degree d on the left and l*d/r on the right, whenever it returns ---- *)
-(* repaired variant (the free pair found by the exhaustive test is used): for every stream and every restart fuel *)
-Theorem C15_regular_spec : forall restarts l r d s G s',
-  gg_random_regular_spec restarts l r d s = GGOk (G, s') ->
+(* the free pair found by the exhaustive test is used: for every stream and every restart fuel *)
+Theorem C15_regular : forall restarts l r d s G s',
+  gg_random_regular restarts l r d s = GGOk (G, s') ->
   io_kind G = GioBipartite /\
   (forall u, 1 <= u <= l -> Z.of_nat (length (gio_succs G u)) = d) /\
   (forall v, 1 <= v <= r -> Z.of_nat (length (gio_preds G v)) = l * d / r) /\
   gg_nedges G = l * d.
 Proof. exact random_regular_spec_degrees. Qed.
-Print Assumptions C15_regular_spec.
-(* the code as it is: regular exactly when no position was skipped, i.e. when the graph has l*d edges *)
-Theorem C15_regular_partial : forall restarts l r d s G s',
-  gg_random_regular_as_is restarts l r d s = GGOk (G, s') -> gg_nedges G = l * d ->
+Print Assumptions C15_regular.
+(* the code as found (before e36db3c): regular exactly when no position was skipped, i.e. when the graph has l*d edges *)
+Theorem C15_regular_as_found_partial : forall restarts l r d s G s',
+  gg_random_regular_as_found restarts l r d s = GGOk (G, s') -> gg_nedges G = l * d ->
   io_kind G = GioBipartite /\
   (forall u, 1 <= u <= l -> Z.of_nat (length (gio_succs G u)) = d) /\
   (forall v, 1 <= v <= r -> Z.of_nat (length (gio_preds G v)) = l * d / r) /\
   gg_nedges G = l * d.
 Proof. exact random_regular_as_is_partial. Qed.
-Print Assumptions C15_regular_partial.
-(* ... and a stream on which it returns a graph that is not regular, for arguments the guard accepts (regular 2 2 2) *)
-Theorem C15_regular_refuted : exists restarts l r d s G s',
-  gg_guard_regular [l; r; d] = true /\ gg_random_regular_as_is restarts l r d s = GGOk (G, s') /\
+Print Assumptions C15_regular_as_found_partial.
+(* ... and a stream on which it returned a graph that is not regular, for arguments the guard accepts (regular 2 2 2): D40 *)
+Theorem C15_regular_as_found_refuted : exists restarts l r d s G s',
+  gg_guard_regular [l; r; d] = true /\ gg_random_regular_as_found restarts l r d s = GGOk (G, s') /\
   exists u, 1 <= u <= l /\ Z.of_nat (length (gio_succs G u)) <> d.
 Proof. exact random_regular_as_is_refuted. Qed.
-Print Assumptions C15_regular_refuted.
+Print Assumptions C15_regular_as_found_refuted.
 Example C15_regular_nonvacuous :
-  gg_random_regular_spec 1 2 2 2 [0; 0; 1; 1; 2; 3; 3; 3] = GGOk (mkIOG GioBipartite [] 2 2 [(1,1); (1,2); (2,1); (2,2)], []) /\
-  gg_random_regular_as_is 1 2 2 2 [0; 0; 1; 1; 2; 3; 3; 3] = GGOk (mkIOG GioBipartite [] 2 2 [(1,1); (1,2); (2,1); (2,2)], []) /\
-  gg_random_regular_as_is 1 2 2 2 ([0; 0] ++ concat (repeat [2; 2] 12) ++ [2; 3; 3; 3]) = GGOk (mkIOG GioBipartite [] 2 2 [(1,1); (1,2); (2,1)], []) /\
-  gg_random_regular_spec 1 2 2 2 ([0; 0] ++ concat (repeat [2; 2] 12) ++ [2; 3; 3; 3]) = GGOk (mkIOG GioBipartite [] 2 2 [(1,1); (1,2); (2,1); (2,2)], []) /\
-  gg_random_regular_spec 5 3 0 2 [] = GGZeroDiv /\ gg_random_regular_spec 5 3 2 1 [] = GGRaise EValueError.
+  gg_random_regular 1 2 2 2 [0; 0; 1; 1; 2; 3; 3; 3] = GGOk (mkIOG GioBipartite [] 2 2 [(1,1); (1,2); (2,1); (2,2)], []) /\
+  gg_random_regular_as_found 1 2 2 2 [0; 0; 1; 1; 2; 3; 3; 3] = GGOk (mkIOG GioBipartite [] 2 2 [(1,1); (1,2); (2,1); (2,2)], []) /\
+  gg_random_regular_as_found 1 2 2 2 ([0; 0] ++ concat (repeat [2; 2] 12) ++ [2; 3; 3; 3]) = GGOk (mkIOG GioBipartite [] 2 2 [(1,1); (1,2); (2,1)], []) /\
+  gg_random_regular 1 2 2 2 ([0; 0] ++ concat (repeat [2; 2] 12) ++ [2; 3; 3; 3]) = GGOk (mkIOG GioBipartite [] 2 2 [(1,1); (1,2); (2,1); (2,2)], []) /\
+  gg_random_regular 5 3 0 2 [] = GGZeroDiv /\ gg_random_regular 5 3 2 1 [] = GGRaise EValueError.
 Proof. vm_compute. repeat split. Qed.
 
 (* ---- (4) path, tree, pyramid: closed-form vertex and edge counts, acyclic ---- *)
@@ -150,24 +163,33 @@ Example C15_splitedges_nonvacuous :
 Proof. vm_compute. repeat split. Qed.
 
 (* ---- (8) the argument guards of graph_build.py imply the precondition of what is called next ---- *)
-(* gnd: N = d passes the guard and breaks 0 <= d < n of networkx.random_regular_graph (NetworkXError escapes): defect D14 *)
-Theorem C15_gnd_guard_refuted : exists n d, gg_guard_gnd [n; d] = true /\ ~ gg_pre_nx_random_regular d n.
-Proof. exact guard_gnd_refuted. Qed.
-Print Assumptions C15_gnd_guard_refuted.
-Theorem C15_gnd_guard_partial : forall args, gg_guard_gnd args = true ->
-  exists n d, args = [n; d] /\ (d < n -> gg_pre_nx_random_regular d n).
-Proof. exact guard_gnd_partial. Qed.
-Print Assumptions C15_gnd_guard_partial.
-Theorem C15_gnd_guard_spec : forall args, gg_guard_gnd_spec args = true ->
+(* gnd: the guard demands N > d > 0 and even N*d, which is the requirement of networkx.random_regular_graph *)
+Theorem C15_gnd_guard : forall args, gg_guard_gnd args = true ->
   exists n d, args = [n; d] /\ gg_pre_nx_random_regular d n.
 Proof. exact guard_gnd_spec_pre. Qed.
-Print Assumptions C15_gnd_guard_spec.
+Print Assumptions C15_gnd_guard.
+(* as found (before 9fe5425): N = d passed the guard and broke 0 <= d < n (NetworkXError escaped): defect D14 *)
+Theorem C15_gnd_guard_as_found_refuted : exists n d, gg_guard_gnd_as_found [n; d] = true /\ ~ gg_pre_nx_random_regular d n.
+Proof. exact guard_gnd_refuted. Qed.
+Print Assumptions C15_gnd_guard_as_found_refuted.
+Theorem C15_gnd_guard_as_found_partial : forall args, gg_guard_gnd_as_found args = true ->
+  exists n d, args = [n; d] /\ (d < n -> gg_pre_nx_random_regular d n).
+Proof. exact guard_gnd_partial. Qed.
+Print Assumptions C15_gnd_guard_as_found_partial.
 Theorem C15_gnm_guard : forall args, gg_guard_gnm args = true -> exists n m, args = [n; m] /\ gg_pre_nx_gnm n m.
 Proof. exact guard_gnm_pre. Qed.
 Print Assumptions C15_gnm_guard.
-Theorem C15_grid_guard : forall dims, gg_guard_grid dims = true -> gg_pre_nx_grid dims.
-Proof. exact guard_grid_pre. Qed.
+(* grid / torus: at least one dimension, all positive *)
+Theorem C15_grid_guard : forall dims, gg_guard_grid dims = true -> dims <> [] /\ gg_pre_nx_grid dims.
+Proof. exact guard_grid_full. Qed.
 Print Assumptions C15_grid_guard.
+(* as found (before 458cbc2): `grid` without any dimension passed the guard (null graph instead of a refusal): D42 *)
+Theorem C15_grid_guard_as_found_refuted : exists dims, gg_guard_grid_as_found dims = true /\ dims = [] /\ gg_guard_grid dims = false.
+Proof. exact guard_grid_as_found_refuted. Qed.
+Print Assumptions C15_grid_guard_as_found_refuted.
+Theorem C15_grid_guard_as_found_partial : forall dims, gg_guard_grid_as_found dims = true -> gg_pre_nx_grid dims.
+Proof. exact guard_grid_pre. Qed.
+Print Assumptions C15_grid_guard_as_found_partial.
 Theorem C15_complete_simple_guard : forall args, gg_guard_complete_simple args = true ->
   (exists n, args = [n] /\ 0 < n) \/ (exists n b, args = [n; b] /\ gg_pre_nx_multipartite n b).
 Proof. exact guard_complete_simple_pre. Qed.
@@ -207,28 +229,29 @@ Theorem C15_dag_cli_total : forall which args,
 Proof. exact obtain_dag_total. Qed.
 Print Assumptions C15_dag_cli_total.
 Example C15_guard_nonvacuous :
-  gg_guard_gnd [4; 4] = true /\ gg_guard_gnd_spec [4; 4] = false /\ gg_guard_gnd [6; 3] = true /\ gg_guard_gnd [5; 3] = false /\
+  gg_guard_gnd_as_found [4; 4] = true /\ gg_guard_gnd [4; 4] = false /\ gg_guard_gnd [6; 3] = true /\ gg_guard_gnd [5; 3] = false /\
+  gg_guard_grid [2; 3] = true /\ gg_guard_grid [] = false /\
   gg_guard_glrm [3; 3; 9] = true /\ gg_guard_glrm [3; 3; 10] = false /\ gg_guard_regular [4; 2; 1] = true /\
   gg_guard_regular [3; 2; 1] = false /\ gg_guard_shift [3; 3; 0; 3] = true /\ gg_guard_shift [3; 3; 1; 1] = false.
 Proof. vm_compute. repeat split. Qed.
 
 (* ---- (9) shift: the named graph; the caller's pattern ---- *)
-Theorem C15_shift : forall b N M pat G p', gg_shift b N M pat = GGOk (G, p') ->
+Theorem C15_shift : forall b N M pat G p', gg_shift_gen b N M pat = GGOk (G, p') ->
   io_kind G = GioBipartite /\ io_n G = N /\ io_r G = M /\ 1 <= N /\ 1 <= M /\
   (forall u v, gio_has_edge G u v = true <-> 1 <= u <= N /\ exists o, In o pat /\ v = 1 + (u - 1 + o) mod M) /\
   p' = (if b then gio_sort Z.ltb pat else pat).
 Proof. exact shift_named. Qed.
 Print Assumptions C15_shift.
-Theorem C15_shift_returns : forall b N M pat, 1 <= N -> 1 <= M -> exists G p', gg_shift b N M pat = GGOk (G, p').
+Theorem C15_shift_returns : forall b N M pat, 1 <= N -> 1 <= M -> exists G p', gg_shift_gen b N M pat = GGOk (G, p').
 Proof. exact shift_returns. Qed.
 Print Assumptions C15_shift_returns.
-Theorem C15_shift_keeps_pattern_spec : forall N M pat G p', gg_shift_spec N M pat = GGOk (G, p') -> p' = pat.
+Theorem C15_shift_keeps_pattern : forall N M pat G p', gg_shift N M pat = GGOk (G, p') -> p' = pat.
 Proof. exact shift_spec_keeps_pattern. Qed.
-Print Assumptions C15_shift_keeps_pattern_spec.
-(* the code as it was: pattern.sort() on the caller's list (defect D11) *)
-Theorem C15_shift_keeps_pattern_refuted : exists N M pat G p', gg_shift_as_is N M pat = GGOk (G, p') /\ p' <> pat.
+Print Assumptions C15_shift_keeps_pattern.
+(* the code as found (before 50573cf): pattern.sort() on the caller's list (defect D11) *)
+Theorem C15_shift_keeps_pattern_as_found_refuted : exists N M pat G p', gg_shift_as_found N M pat = GGOk (G, p') /\ p' <> pat.
 Proof. exact shift_as_is_changes_pattern. Qed.
-Print Assumptions C15_shift_keeps_pattern_refuted.
+Print Assumptions C15_shift_keeps_pattern_as_found_refuted.
 
 (* ---- complete and empty graphs are the named graphs ---- *)
 Theorem C15_complete_bipartite : forall L R, 0 <= L -> 0 <= R -> exists G, gg_complete_bipartite L R = GGOk G /\
